@@ -625,11 +625,29 @@ def _sweep_worker(task):
     return {"crash": "%s %r: %s" % (seed_name, bundle, traceback.format_exc(limit=6))}
 
 
-def removal_sweep(rep):
+def removal_sweep_run(procs):
   import multiprocessing as mp
   tasks = [(s, b) for s in ALL_SEEDS for b in removal_bundles(_seed_engine(s))]
-  with mp.get_context("fork").Pool(min(16, os.cpu_count() or 4)) as pool:
-    outs = pool.map(_sweep_worker, tasks, chunksize=8)
+  with mp.get_context("fork").Pool(procs) as pool:
+    return pool.map(_sweep_worker, tasks, chunksize=4)
+
+
+def removal_sweep_start():
+  """The sweep runs in a process of its own (5 workers) next to the random part, which keeps only
+  11 of the 16 cores busy."""
+  import subprocess
+  return subprocess.Popen([sys.executable, os.path.abspath(__file__), "--removal-sweep"],
+                          stdout=subprocess.PIPE, env=dict(os.environ))
+
+
+def removal_sweep_collect(rep, proc):
+  import json
+  data, _ = proc.communicate()
+  try:
+    outs = json.loads(data.decode("utf8"))
+  except Exception as ex:
+    rep.crash("removal sweep: no result (%r, exit %s)" % (ex, proc.returncode)); return
+  tasks = outs
   n = raised = 0
   for o in outs:
     if o.get("crash"):
@@ -717,11 +735,16 @@ def main():
   rep.coverage["ref_columns_checked"] = len(ref_columns())
   from checks import C02
   C02.tune_explore(4)
-  explore.explore(rep, "checks.C09", "C09Monitor", n_quick=176, budget_quick_s=30)
-  removal_sweep(rep)
+  sweep = removal_sweep_start()
+  explore.explore(rep, "checks.C09", "C09Monitor", n_quick=176, budget_quick_s=28)
+  removal_sweep_collect(rep, sweep)
   run_witnesses(rep)
   return rep.finish()
 
 
 if __name__ == "__main__":
+  if "--removal-sweep" in sys.argv:
+    import json
+    json.dump(common._jsonable(removal_sweep_run(5)), sys.stdout)
+    sys.exit(0)
   sys.exit(main())
